@@ -95,6 +95,19 @@ def _check_runtime_types(node: ASTNode, type_map: Mapping[Field, FieldTypeInfo])
     return incorrect_fields
 
 
+def _stable_str(val: Any, top: bool = True) -> str:
+    """`str(val)` that doesn't depend on the iteration order of frozensets (which varies with
+    construction order and, for strings, with the hash seed of the process)."""
+    if isinstance(val, frozenset) and val:
+        return "frozenset({" + ", ".join(sorted(_stable_str(v, False) for v in val)) + "})"
+
+    if type(val) is tuple:
+        items = [_stable_str(v, False) for v in val]
+        return "(" + ", ".join(items) + ("," if len(items) == 1 else "") + ")"
+
+    return str(val) if top else repr(val)
+
+
 NODE_REGISTRY: weakref.WeakValueDictionary[str, ASTNode] = weakref.WeakValueDictionary()
 """Registry of all node objects."""
 
@@ -214,7 +227,7 @@ class ASTNode(DataClassSerializeMixin):
         ):
             cid_data += f":{f.name}="
             # Escape the closing bracket so that the value's text can't be confused with the framing
-            sval = str(val).replace("\\", "\\\\").replace(")", "\\)")
+            sval = _stable_str(val).replace("\\", "\\\\").replace(")", "\\)")
             cid_data += f"{type(val)}({sval})"
 
         # Full ID must include origin's (current node and children)
